@@ -38,7 +38,7 @@ func e4cases(c *hx.Ctx) []e4case {
 	f := x.B(false)
 	const MiB = int64(1 << 20)
 	all := []e4case{
-		{x.Config{Size: 4 * MiB}, "fill"},
+		{x.Config{Size: 6 * MiB, Resize: f}, "fill"},
 		{x.Config{Size: 10*MiB + 1536, Start: MiB}, "fill"},
 		{x.Config{Size: 12 * MiB, Start: 512}, "dirgrow"},
 		{x.Config{Size: 16 * MiB, SPB: 8, Resize: f, Start: 4<<30 + 4096}, "fill"},
@@ -202,7 +202,7 @@ func (l *e4lay) classify(off, ln int64) string {
 		}
 	}
 	for g := 0; g < l.ng; g++ {
-		if off == int64(v.Groups[g].InodeBitmap)*l.bs && ln == int64(v.IPG)/8 {
+		if off == int64(v.Groups[g].InodeBitmap)*l.bs && (ln == int64(v.IPG)/8 || ln == l.bs) {
 			return "ibm"
 		}
 	}
@@ -441,14 +441,19 @@ func e4tag(cfg x.Config, d *memdev.Dev, l *e4lay) string {
 		return "-"
 	}
 	okOff := map[int64]bool{}
+	sbOff := map[int64]bool{}
 	for g := 0; g < l.ng; g++ {
 		if e4hasSuper(g) && 1+l.gdtb > l.blocksInGroup(g) {
 			okOff[(int64(l.v.GroupStart(g))+1)*l.bs] = true
+			sbOff[int64(l.v.GroupStart(g))*l.bs] = true
 		}
 	}
 	limit := cfg.Start + int64(l.v.BlocksCount)*l.bs
 	for _, e := range d.Log {
 		if e.Sync || e.Off+int64(e.Len) <= limit {
+			continue
+		}
+		if sbOff[e.Off-cfg.Start] && e.Len == 1024 { // the superblock copy of a backup group of no blocks
 			continue
 		}
 		if !okOff[e.Off-cfg.Start] || int64(e.Len) != int64(l.ng)*l.ds {
